@@ -153,6 +153,45 @@ def run(ctx):
                       model_reqs=lambda c: driver.req("toverride", c[2], c[3], c[0]),
                       nontrivial=lambda c, r: '"57"' in r,   # the wrapper W occurs: the override fired
                       describe=lambda c: (repr(c[1])[:200], c[2], c[3]), bucket=lambda c, r: c[2] + "/" + c[3])
+    # a NodeVisitor with a handler for ONE kind (the others go through generic_visit): the handled nodes are met in depth-first field order
+    import dataclasses as _dc0
+    def ref_order(n, kind, acc):
+        if isinstance(n, list):
+            for x in n:
+                ref_order(x, kind, acc)
+            return acc
+        if not _dc0.is_dataclass(n):
+            return acc
+        if type(n).__name__ == kind:
+            acc.append(enc(n))
+        for f in _dc0.fields(n):
+            v = getattr(n, f.name)
+            if _dc0.is_dataclass(v) or isinstance(v, list):
+                ref_order(v, kind, acc)
+        return acc
+    def real_order(n, kind):
+        log = []
+        def h(self, m):
+            log.append(enc(m))
+            self.generic_visit(m)
+        V = type("One", (visitor.NodeVisitor,), {"visit_" + kind: h})
+        V().visit(n)
+        return log
+    ord_bad = []
+    for k_, (w_, nd_) in enumerate(uniq[:: max(1, len(uniq) // (1500 if ctx.thorough else 400))]):
+        for kind in ("Identifier", "Compare", "Call", "String", "Integer", "Attribute", "BoolOp", "List")[k_ % 3::3] + ("Identifier",):
+            ctx.evaluations += 1
+            try:
+                got, want = real_order(nd_, kind), ref_order(nd_, kind, [])
+            except RecursionError:
+                continue
+            except Exception as e:  # noqa
+                ord_bad.append((nd_, kind, "raised " + type(e).__name__, [])); continue
+            if got != want:
+                ord_bad.append((nd_, kind, got, want))
+    ctx.note(f"single-kind visitors: handled nodes in document order on all but {len(ord_bad)} (tree, kind) pairs")
+    if ord_bad:
+        ctx.broken.append(f"a visitor with a handler for one kind does not meet the nodes of that kind in depth-first field order; first: kind {ord_bad[0][1]} on {ord_bad[0][0]!r}"[:500])
     # every OCCURRENCE of a node is dispatched, also when one node OBJECT sits at several positions of the tree (hand-built trees, the output of a rewriter that
     # inserts one replacement object at every use of an alias): a numbering override must number every occurrence, in document order
     import dataclasses as _dc
@@ -287,6 +326,9 @@ def run(ctx):
 
     def search(ctx):
         found = []
+        for nd_, kind, got, want in ord_bad[:10]:
+            found.append({"property": "C16", "tree": repr(nd_)[:600], "visitor": "NodeVisitor subclass with visit_" + kind + " only", "order_met": got[:8] if isinstance(got, list) else got,
+                          "depth_first_field_order": want[:8], "why": "the nodes of the handled kind are not met in depth-first field order", "signature": "C16:order:" + kind})
         for t, got, want in occ_bad[:10]:
             found.append({"property": "C16", "tree_with_shared_node_objects": repr(t)[:600], "numbering_transformer_result": got[:600], "document_order_reference": want[:600],
                           "why": "a transformer override is not dispatched for every occurrence of a node (one node object at several positions)", "signature": "C16:occurrence"})
